@@ -31,7 +31,7 @@ ASSUMPTIONS = [
     "isoelectric_point function per call; NaN / non-numeric pH is not judged (statement speaks of values outside [0,14])",
 ]
 REQUIRED = {"all": ["sweep_points", "pH_zero_points", "pH_fourteen_points", "rejected_out_of_range", "pI_calls",
-                    "pI_outside_0_14", "pI_nothing_titrates", "pI_reused_as_pH", "numpy_pH_values"]}
+                    "pI_outside_0_14", "pI_nothing_titrates", "pI_reused_as_pH", "numpy_pH_values", "ordered_multi_object_pI"]}
 NRANDOM = {"quick": 1200, "thorough": 6000}
 NPH = {"quick": 40, "thorough": 90}
 HI = {"quick": 150, "thorough": 400}
@@ -85,12 +85,20 @@ def cases(tier, seed):
     rng = gen.sub_rng(seed, ID)
     for s in SPECIAL:
         yield {"s": s, "o": rng.randrange(1 << 30)}
+    for chain in (["RRRRRRRR", "GSGSGSGSGS", "AQNLMFW", "G"], ["GRRRGRRRKG", "G", "EEEE", "GSGS"], ["DDDDDDDD", "GSGSGS", "RRRR", "AAAA"]):
+        yield {"chain": chain, "o": rng.randrange(1 << 30)}
     for i in range(NRANDOM[tier]):
         cls = "titratable" if i % 3 == 0 else None
         yield {"s": gen.rand_seq(rng, cls, hi=HI[tier] if i % 4 == 0 else 50), "o": rng.randrange(1 << 30)}
 
 
 def judge(case, rep, S):
+    if "chain" in case:
+        # the pI of one object must not depend on which other objects were analysed before it in the same process
+        for s in case["chain"]:
+            rep.cnt("ordered_multi_object_pI")
+            judge_pi(rep, S["SP"](s), s, sum(1 for c in s if c in M.TITR_POS + M.TITR_NEG))
+        return
     seq = case["s"]
     N = len(seq)
     rng = gen.sub_rng(case["o"], ID)
